@@ -118,7 +118,9 @@ extern "C" void h_hist(void)
 				static const int LEN[6] = { 0, 3, 7, 8, 9, 20 };
 				int L = LEN[vp_concretize(vp_range(0, 5))]; char t[24]; for (int i = 0; i < L; i++) t[i] = 'a' + i; if (L) t[L - 1] = lastch(); t[L] = 0;
 				if (nondet_bool()) x[a] = (const char*)t; else x[a] = String(t);
-				r[a] = rnone(); r[a].tag = T_STR; strcpy(r[a].s, t); break; }
+				r[a] = rnone(); r[a].tag = T_STR; strcpy(r[a].s, t);
+				{ Var f(t); vp_assert(x[a] == f && f == x[a] && !(x[a] != f), "a Var re-assigned a text in place equals a freshly built Var with the same text"); }
+				break; }
 			case 11: { // direct assignment of scalars
 				int k = vp_concretize(vp_range(0, 3)); r[a] = rnone();
 				if (k == 0) { int v = (int)nondet_u32(); x[a] = v; r[a].tag = T_INT; r[a].i = v; }
